@@ -114,14 +114,14 @@ def hyp_mutated(ctx, n):
         prob, verdict = judge(config, codec, hexbm, mutated, default_cfg=not gen)
         rs = c07.reached(config, codec, hexbm, mutated)
         ctx.case(key=harness.digest(('mut', config if gen else 0, codec, hexbm, mutated)), nontrivial='fields' in rs and mutated != data,
-                 labels=['mutated', 'verdict:' + verdict] + ['op:' + o[0] for o in ops])
+                 labels=['mutated', 'verdict:' + verdict, 'mutated-verdict:' + verdict] + ['op:' + o[0] for o in ops])
         if len(ctx.samples) < 5 and 'fields' in rs:
             ctx.sample({'codec': codec, 'hex_bitmap': hexbm, 'ops': ops, 'mutated': mutated[:100], 'verdict(strict,lenient,loads)': verdict})
         if prob:
             ctx.fail(prob[0], case_of(config, gen, codec, hexbm, mutated), prob[1])
     harness.drive(ctx, cases(), body, n, salt='mutated')
-    ctx.floor('verdict:AAA', 0.03, 'mutated')
-    ctx.floor('verdict:RRR', 0.05, 'mutated')
+    ctx.floor('mutated-verdict:AAA', 0.02, 'mutated')
+    ctx.floor('mutated-verdict:RRR', 0.10, 'mutated')
 
 
 # --------------------------------------------------------------------------------------- prefix enumeration
